@@ -19,13 +19,47 @@ def arbitrary_order(rnd, label):
 KNOWN_INPUT = "SCEN kf0\nmake localp 2 3 3 3 semi-localp 0\nbegin\ncandl -1 -1 classic 0\nloadpool 1 0 369473 1\nfinish\n"
 
 
+def fixed_target(rnd, label):
+    """every point of a fixed target grid (larger than the grid under construction) delivered in a shuffled order and random batch
+    sizes, whether or not the library proposed those points: tensors the constructor does not know yet, one-point tensors, points of
+    distant levels before the points below them"""
+    fam = rnd.choice(["global", "global", "fourier", "sequence", "localp", "wavelet"])
+    d = rnd.choice([1, 2, 2, 3])
+    outs = rnd.choice([1, 2])
+    start = rnd.choice([0, 0, 1])
+    if fam == "global":
+        rule = rnd.choice(["rleja", "leja", "clenshaw-curtis", "rleja-odd", "fejer2", "min-lebesgue", "rleja-double2", "gauss-patterson"])
+        target = {1: 4, 2: 3, 3: 2}[d] if rule in ("rleja", "leja", "min-lebesgue", "rleja-odd") else {1: 3, 2: 2, 3: 1}[d]
+        L = ["SCEN " + label, "make global %d %d %d level %s 0 0 0 0" % (d, outs, min(start, target), rule)]
+    elif fam == "fourier":
+        target = {1: 3, 2: 2, 3: 1}[d]
+        L = ["SCEN " + label, "make fourier %d %d %d level 0 0" % (d, outs, min(start, target))]
+    elif fam == "sequence":
+        target = {1: 5, 2: 4, 3: 3}[d]
+        L = ["SCEN " + label, "make sequence %d %d %d level %s 0 0" % (d, outs, start, rnd.choice(gl.SEQ_RULES))]
+    elif fam == "localp":
+        target = {1: 4, 2: 3, 3: 2}[d]
+        L = ["SCEN " + label, "make localp %d %d %d %d %s 0" % (d, outs, start, rnd.choice([1, 2, 3]), rnd.choice(["localp", "semi-localp", "localp-zero", "localp-boundary"]))]
+    else:
+        target = {1: 3, 2: 2, 3: 1}[d]
+        L = ["SCEN " + label, "make wavelet %d %d %d 1 0" % (d, outs, min(start, target))]
+    if rnd.random() < 0.3:
+        L.append("load 1")
+    L.append("begin")
+    if rnd.random() < 0.4:
+        L.append("candl -1 -1 classic 0" if fam in ("localp", "wavelet") else "cand level 0 0 0")
+    L.append("loadtarget 2 %d %d %d" % (target, rnd.randint(1, 10 ** 6), rnd.choice([1, 1, 1, 2, 3, 50])))
+    L.append("finish")
+    return "\n".join(L) + "\n"
+
+
 def run(ctx):
     rnd = random.Random(ctx.seed + 101)
     n = 240 if ctx.quick else 5000
-    scens = [gl.history(rnd, "n%d" % i, steps=rnd.randint(3, 9), with_construct=True, with_transform=True) for i in range(n)]
-    scens += [arbitrary_order(rnd, "a%d" % i) for i in range(n // 3)] + [KNOWN_INPUT]
+    scens = [gl.history(rnd, "n%d" % i, steps=rnd.randint(3, 9), with_construct=True, with_transform=True, with_coef=(i % 4 == 0)) for i in range(n)]
+    scens += [arbitrary_order(rnd, "a%d" % i) for i in range(n // 3)] + [KNOWN_INPUT] + [fixed_target(rnd, "f%d" % i) for i in range(n // 3)]
     gen = gl.mc_and_scripts(ctx, ['localp2', 'globalcc', 'seq'], rnd, 80 if ctx.quick else 1500, maxlen=None if ctx.quick else 5, genlen=3 if ctx.quick else 4, mc=False)
-    gl.run_grid(ctx, gen + [("nodal", scens)], gl.OBS_NODAL, "C01")
+    gl.run_grid(ctx, gen + [("nodal", scens), ("mixed", gl.mixed_family(rnd, max(40, n // 5)))], gl.OBS_NODAL, "C01")
     ctx.assume("reproduction is judged by an observer at 1e-9 relative tolerance on integer token values; the spec decides when the property applies (local polynomial grids: all parents loaded)")
 
 
